@@ -28,6 +28,9 @@ import (
 // open finding: see /verif/fixes/C06_side_chain_fork_nil_parent_header.md
 const findSideNilParent = "side-chain import of a fork of two or more blocks that are not stored yet panics in checkAndUpgradeValidatorsToYouV5 (parent header not in the database)"
 
+// open finding: see /verif/fixes/C06_side_chain_pending_txs_need_canonical_index.md
+const findSidePendingTxs = "side-chain verification cannot resolve the pending staking transactions of earlier fork blocks (processPendingTxs reads the canonical transaction lookup): a fork containing a staking transaction and the period end is refused"
+
 type Hit struct {
 	What    string   `json:"what"`
 	Block   uint64   `json:"block"`
@@ -106,6 +109,9 @@ func randTx(r *vf.Rng, nv int) TxIn {
 		t.Kind, t.Val = "settle", val
 	case k < 90:
 		t.Kind, t.Val, t.Value = "dadd", val, amt()
+		if r.Chance(20) {
+			t.Value = "200" + YOU // above every MaxStakes: fails with errStakesOverflow but is included
+		}
 	case k < 95:
 		t.Kind, t.Val, t.Value = "dsub", val, amt()
 	case k < 97:
@@ -236,9 +242,56 @@ func randHistory(r *vf.Rng, maxBlocks int) *History {
 		}
 		h.Blocks = append(h.Blocks, b)
 	}
+	// the pending-total scenario: inside one staking period a validator gets a
+	// pending (0x0,V) record, then a delegation above MaxStakes (included as a
+	// failed transaction), then, in a later block of the same period, further
+	// staking transactions that read V's pending total
+	if fq := int(h.Params.Freq); r.Chance(45) && fq >= 3 && nb >= 3 {
+		var starts []int
+		for s0 := 1; s0+2 <= nb; s0++ {
+			if s0/fq == (s0+2)/fq {
+				starts = append(starts, s0)
+			}
+		}
+		if len(starts) > 0 {
+			s0 := starts[r.Intn(len(starts))]
+			g := &h.Vals[r.Intn(len(h.Vals))]
+			g.Accept = 1
+			mk := func(kind string, from int, value string) TxIn {
+				return TxIn{Kind: kind, From: from, Val: g.Key, Value: value, Recipient: from, Gas: 300000, Price: uint64(16*(1+r.Intn(4)) + from)}
+			}
+			others := []int{}
+			for a := 0; a < nAcct-1; a++ {
+				others = append(others, a)
+			}
+			a1, a2, a3 := others[r.Intn(len(others))], others[r.Intn(len(others))], others[r.Intn(len(others))]
+			first := mk("dadd", a1, "3"+YOU)
+			if r.Chance(40) {
+				first = mk("deposit", g.Operator, "2"+YOU)
+			}
+			h.Blocks[s0-1].Txs = append(h.Blocks[s0-1].Txs, first)
+			over := mk("dadd", a2, "200"+YOU)
+			if r.Chance(50) {
+				h.Blocks[s0-1].Txs = append(h.Blocks[s0-1].Txs, over)
+			} else {
+				h.Blocks[s0].Txs = append(h.Blocks[s0].Txs, over)
+			}
+			later := []TxIn{mk("dadd", a3, "4"+YOU), mk("dsub", a1, "1"+YOU), mk("deposit", g.Operator, "3"+YOU), mk("withdraw", g.Operator, "1"+YOU)}
+			h.Blocks[s0+1].Txs = append(h.Blocks[s0+1].Txs, later[r.Intn(len(later))])
+			if r.Chance(50) {
+				h.Blocks[s0+1].Txs = append(h.Blocks[s0+1].Txs, later[r.Intn(len(later))])
+			}
+		}
+	}
 	h.SideFrom = r.Intn(nb)
 	if r.Chance(60) {
 		h.SideFrom = 0
+	}
+	switch x := r.Intn(100); {
+	case x < 20:
+		h.SideE = "stored"
+	case x < 26:
+		h.SideE = "raw"
 	}
 	for left := nb; left > 0; {
 		k := 1 + r.Heavy(6)
@@ -267,7 +320,7 @@ func runHistory(h *History, reps int) (obs []*BlockObs, crashed string) {
 	obs = w.run(reps)
 	w.headMoved(obs)
 	w.carried(obs)
-	w.sideChain(obs)
+	w.sideChains(obs)
 	return obs, ""
 }
 
@@ -279,12 +332,13 @@ func digest(obs []*BlockObs) string {
 		Carr []string
 		Inc  []string
 		Side string
+		SideE string
 	}
 	var ps []proj
 	for _, o := range obs {
 		c := *o
 		c.ReexecDiff = nil
-		ps = append(ps, proj{&c, o.Evs, o.HeadMovedDiff, o.CarriedDiff, o.Incoherent, o.SideErr})
+		ps = append(ps, proj{&c, o.Evs, o.HeadMovedDiff, o.CarriedDiff, o.Incoherent, o.SideErr, o.SideEErr})
 	}
 	b, _ := json.Marshal(ps)
 	s := sha256.Sum256(b)
@@ -374,19 +428,30 @@ func judge(h *History, obs []*BlockObs, crashed string, v *verdicts) {
 			add(&v.hits, "after a block the StateDB's staking-record cache disagrees with its own staking trie", o, strings.Join(o.Incoherent, "; "))
 		}
 		if o.SideErr != "" {
-			if h.SideRaw && strings.Contains(o.SideErr, "@checkAndUpgradeValidatorsToYouV5") {
-				v.counts["finding_side_chain_nil_parent"]++
-				add(&v.known, findSideNilParent, o, o.SideErr)
-			} else {
-				v.counts["side_chain_import_rejected"]++
-				add(&v.hits, "the built chain is accepted block by block but refused by the side-chain import path (insertSidechain / verifyAllSideChainBlocks)", o, o.SideErr)
-			}
+			v.counts["side_chain_import_rejected"]++
+			add(&v.hits, "the built chain is accepted block by block but refused by the side-chain import path (insertSidechain / verifyAllSideChainBlocks: one StateDB carried across the fork)", o, o.SideErr)
 		} else if o.Number == 1 {
 			if o.SideSkipped {
 				v.counts["side_chain_skipped_lookback_inside_fork"]++
 			} else {
 				v.counts["side_chain_import_accepted"]++
 				v.counts["side_chain_blocks"] += o.SideLen
+			}
+		}
+		// node E differs from node D only in what its database holds about the fork
+		if o.SideEMode != "" {
+			switch {
+			case o.SideEErr == "":
+				v.counts["side_chain_"+o.SideEMode+"_accepted"]++
+			case o.SideEMode == "raw" && strings.Contains(o.SideEErr, "@checkAndUpgradeValidatorsToYouV5"):
+				v.counts["finding_side_chain_nil_parent"]++
+				add(&v.known, findSideNilParent, o, o.SideEErr)
+			case o.SideEMode == "stored" && !strings.HasPrefix(o.SideEErr, "panic"):
+				v.counts["finding_side_chain_pending_txs"]++
+				add(&v.known, findSidePendingTxs, o, o.SideEErr)
+			default:
+				v.counts["side_chain_"+o.SideEMode+"_rejected"]++
+				add(&v.hits, "the side-chain import path fails on a node whose database is not prepared ("+o.SideEMode+")", o, o.SideEErr)
 			}
 		}
 		if o.HeadMovedDiff != "" {
@@ -735,10 +800,14 @@ func replay(file string) {
 		v.hits = append(v.hits, Hit{What: "the same history gave different blocks, receipts or logs on a second run"})
 	}
 	for _, o := range obs {
-		fmt.Printf("block %d built=%v imported=%v err=%q txs=%d slash=%d bytes reexec=%v headmoved=%q carried=%v incoherent=%v side=%q\n", o.Number, o.Built, o.Imported, o.ImportErr, o.NTx, len(o.SlashData)/2, o.ReexecDiff, o.HeadMovedDiff, o.CarriedDiff, o.Incoherent, o.SideErr)
+		fmt.Printf("block %d built=%v imported=%v err=%q txs=%d slash=%d bytes reexec=%v headmoved=%q carried=%v incoherent=%v side=%q sideE=%q\n", o.Number, o.Built, o.Imported, o.ImportErr, o.NTx, len(o.SlashData)/2, o.ReexecDiff, o.HeadMovedDiff, o.CarriedDiff, o.Incoherent, o.SideErr, o.SideEErr)
 	}
 	if len(v.hits) > 0 {
 		fmt.Printf("ORACLE VIOLATION: %s (block %d): %s\n", v.hits[0].What, v.hits[0].Block, v.hits[0].Detail)
+		os.Exit(1)
+	}
+	if len(v.known) > 0 {
+		fmt.Printf("ORACLE VIOLATION (listed open finding): %s (block %d): %s\n", v.known[0].What, v.known[0].Block, v.known[0].Detail)
 		os.Exit(1)
 	}
 	fmt.Println("property holds on this history")
